@@ -45,11 +45,19 @@ Theorem C03_read_metadata_split : forall fields l m b,
 Proof. exact read_metadata_split. Qed.
 Print Assumptions C03_read_metadata_split.
 
-Theorem C03_read_metadata_oneline : forall fields x p,
+Theorem C03_read_metadata_oneline : forall fields x rest p,
   before_colon x = Some p -> str_in (lower (strip p)) fields = false ->
-  read_metadata fields [x] = ([], [x]).
+  forallb Meta.is_blank rest = true ->
+  read_metadata fields (x :: rest) = ([], x :: rest).
 Proof. exact read_metadata_oneline. Qed.
 Print Assumptions C03_read_metadata_oneline.
+
+(* the former witness of doc-oneline-colon-alt-block (a one-line `!*` block closed by a blank line) *)
+Theorem C03_oneline_alt_block_fixed :
+  read_metadata [s "author"; s "display"] [s " Note: alt one line"; []]
+  = ([], [s " Note: alt one line"; []]).
+Proof. exact oneline_alt_block_fixed. Qed.
+Print Assumptions C03_oneline_alt_block_fixed.
 
 (* a comment shared by the variables of one declaration must be scanned on a copy per variable:
    scanning the body again is not the identity (FORD's scan pops the lines of its argument) *)
